@@ -261,14 +261,14 @@ func c10Merge(c *mc.Ctx) {
 	order := c.ChooseDev(3)
 	extra := 0 // 1: --commit-csv <resolved file>, 2: --no-gui (wrgl merge only)
 	if !viaPull {
-		extra = c.ChooseDev(4) // 3: the branch is named through a revision expression (main^)
+		extra = c.ChooseDev(5) // 3: the branch is named through a revision expression (main^); 4: a second branch a/main exists
 	}
 	if extra == 3 && len(c10graph.Parents[rel.old]) == 0 {
 		c.Skip() // main^ does not exist
 	}
 	c.Shard()
 	pool := c12Pool()
-	desc := fmt.Sprintf("merge relation=%s(branch=node %d, other=node %d) mode=%q viaPull=%v timeorder=%d extra=%s", rel.name, rel.old, rel.new, mode, viaPull, order, []string{"none", "--commit-csv", "--no-gui", "branch-as-main^"}[extra])
+	desc := fmt.Sprintf("merge relation=%s(branch=node %d, other=node %d) mode=%q viaPull=%v timeorder=%d extra=%s", rel.name, rel.old, rel.new, mode, viaPull, order, []string{"none", "--commit-csv", "--no-gui", "branch-as-main^", "decoy-branch-a/main"}[extra])
 	c.Logf("%s", desc)
 	repo, err := newCLIRepo()
 	if err != nil {
@@ -293,6 +293,16 @@ func c10Merge(c *mc.Ctx) {
 		panic(err)
 	}
 	ref.SaveRef(rs, "heads/main", sums[rel.old], "t", "t@t", "setup", "setup", nil)
+	decoy := -1
+	if extra == 4 {
+		// another branch whose name ends in /main: on the root commit, or on an unrelated commit when
+		// main itself is on the root
+		decoy = 0
+		if rel.old == 0 {
+			decoy = 3
+		}
+		ref.SaveRef(rs, "heads/a/main", sums[decoy], "t", "t@t", "setup", "setup", nil)
+	}
 	var ts *httptest.Server
 	if viaPull {
 		sdb := stores.NewMemStore()
@@ -377,6 +387,20 @@ func c10Merge(c *mc.Ctx) {
 		c.Fail("moved-backwards", "after wrgl %s the branch points to %x (node %d), which does not descend from its previous value node %d; %s", args[0], head, headNode, rel.old, desc)
 		return
 	}
+	if decoy >= 0 {
+		// the other branch is none of this command's business: it stays, or moves to a descendant
+		dh, err := ref.GetHead(lrs, "a/main")
+		if err != nil {
+			c.Fail("branch-lost", "branch a/main disappeared; %s", desc)
+			return
+		}
+		if !bytes.Equal(dh, sums[decoy]) {
+			if ok, _ := ref.IsAncestorOf(ldb, sums[decoy], dh); !ok {
+				c.Fail("moved-backwards", "wrgl merge main other moved the branch a/main to %x, which does not descend from its previous value node %d; %s", dh, decoy, desc)
+				return
+			}
+		}
+	}
 	otherIsDescendant := rel.old != rel.new && descends(anc, rel.new, rel.old)
 	switch {
 	case extra == 3:
@@ -429,7 +453,7 @@ func init() {
 		ID:    "C10",
 		Level: "exploration",
 		Rule: "fetch and push through the real command tree against the reference server, each operation carrying TWO refs: the first (sorted first) with every history relation between its old and offered value in {new ref, equal, ahead, far ahead, ahead through a merge that also reaches the grandparent directly, behind, diverged, unrelated} x ref kind {head->remote-tracking / head->head, tag, custom ref, head->head, head->tag} x '+' on its refspec; " +
-			"the second (sorted last) from {legal new ref, unforced diverged, '+' diverged, unforced moved tag, fast-forward}; (deviations) global --force, commit-time order {topological, reversed, equal}. merge and pull: relation in {equal, ahead, far ahead, ahead-with-shortcut, behind, diverged} x {default, --no-ff, --ff-only} x {wrgl merge, wrgl pull}, wrgl merge also with --commit-csv <resolved file>, with --no-gui and with the branch named through a revision expression (main^) (thorough: also commit-time orders). All 800+ combinations are run on an on-disk repository. " +
+			"the second (sorted last) from {legal new ref, unforced diverged, '+' diverged, unforced moved tag, fast-forward}; (deviations) global --force, commit-time order {topological, reversed, equal}. merge and pull: relation in {equal, ahead, far ahead, ahead-with-shortcut, behind, diverged} x {default, --no-ff, --ff-only} x {wrgl merge, wrgl pull}, wrgl merge also with --commit-csv <resolved file>, with --no-gui with the branch named through a revision expression (main^), and with a second branch a/main present (thorough: also commit-time orders). All 800+ combinations are run on an on-disk repository. " +
 			"Oracle (ref-transition model): an unforced update lands only if the new value descends from the old one and never replaces an existing tag; a refused update leaves the ref unchanged and is reported; every ref is judged on its own relation and its own force flag (one ref's '+' or rejection never changes another ref's outcome); a fast-forward merge moves the branch exactly to the other commit; --ff-only refuses diverged histories; " +
 			"every ref that changed has a newest reflog entry with the true old and new values and resolves to a stored commit. non-trivial / distinct = every combination",
 		Assumptions: []string{"for push the reference server applies exactly the updates it is asked to apply, so the check is on what the client requests and reports", "history relations are realised on a fixed 6-commit universe"},
